@@ -102,10 +102,13 @@ private:
 
             // Two roots computed from the quadratic equation
             const Complex nu = m_ritz_val[i];
-            const Complex root_part1 = m_sigmar + Scalar(0.5) / nu;
-            const Complex root_part2 = Scalar(0.5) * sqrt(Scalar(1) - Scalar(4) * m_sigmai * m_sigmai * (nu * nu)) / nu;
-            const Complex root1 = root_part1 + root_part2;
-            const Complex root2 = root_part1 - root_part2;
+            // root1 = sigmar + (1 + s) / (2 * nu), root2 = sigmar + (1 - s) / (2 * nu),
+            // where s = sqrt(1 - 4 * nu^2 * sigmai^2). The second root is computed as
+            // sigmar + 2 * nu * sigmai^2 / (1 + s), which is the same number but free of
+            // cancellation, and stays finite when nu = 0 (an eigenvalue equal to sigmar)
+            const Complex s = sqrt(Scalar(1) - Scalar(4) * m_sigmai * m_sigmai * (nu * nu));
+            const Complex root1 = m_sigmar + (Scalar(1) + s) / (Scalar(2) * nu);
+            const Complex root2 = m_sigmar + Scalar(2) * m_sigmai * m_sigmai * nu / (Scalar(1) + s);
 
             // Test roots
             Scalar err1 = Scalar(0), err2 = Scalar(0);
